@@ -56,7 +56,18 @@ RULE = ('exhaustive small scope: unique on every indexed-string column of length
         'alone, with a None entry, with a small value, inside 24 further members (narrow and wide), together with v, as '
         'list / set / tuple / ndarray (inferred dtype, every exact explicit integer dtype, object); all pairs at once; '
         'structured random mixtures; the 64-bit small scope (all columns <= 2 over 4 values x all 128 subsets of 7 test '
-        'values incl. None). HDF5-backed cases cost ~5 ms each, '
+        'values incl. None); (f) string VALUES that collide under a cheap hash (a defect that buckets values by a hash is '
+        'visible only on two different equal-length values with equal hash, and on a repeat of the first after the second): '
+        'every indexed-string column of length <= 3 (thorough: 4) over the 16 two-byte strings of {A,B,a,b} (collisions of '
+        'h*31+c, h*32+c, h*33+c, byte sum, byte xor) x flag combinations, isin for every (column <= 2, <= 1 test) and '
+        '(1 row, 2 ordered tests) over them; for ~90 (thorough ~190) hash families - h*m+c, (h*m)^c, (h^c)*m, LSB-first, '
+        'for 16 small multipliers, unbounded / & 0xFFFF / & 0xFF / % table size, byte sum / xor / sum of squares / adler32 / '
+        'rotate-xor / sorted bytes / product, first / last k bytes, first+last+length, sampled positions, length only, and, by '
+        'a birthday search over 2^19 strings, the 32-bit truncated products with FNV / sdbm / Knuth / LCG multipliers and '
+        'crc32 - the first colliding pair and triple over an alphabet with bytes 1, 31, 32, 33 apart (also of 2-byte UTF-8 '
+        'characters) are computed and planted: all columns <= 3 over the group + take-over patterns x 8 flags (ops), real '
+        'memory / HDF5 fields, fixed strings, isin with every subset of the group + stranger + None; every new literal of '
+        'the tree under test is used as multiplier, modulus, mask and prefix length. HDF5-backed cases cost ~5 ms each, '
         'hence the smaller bounds at that level. Non-trivial = reaches a planted feature.')
 EXHAUSTIVE = {'quick': True, 'thorough': True}
 TRUSTED = ['numpy sort/argsort of str arrays (code-point order, trailing NULs insignificant), np.unique, np.isin and '
@@ -368,12 +379,30 @@ def features(case, model):
         if any(a != b and b[:len(a)] == a for a in ds for b in ds): f.append('prefix-pair')
     if ft in ('istr', 'fstr') and len(set(rows)) <= 12 and max([len(r) for r in rows] + [0]) <= 16:
         # equal-length distinct values that collide under a cheap hash; the first of them repeated after the second
-        dsr = list(dict.fromkeys(r for r in rows if r))
-        for hn, hfun in CORE_HASHES:
-            pairs = [(a, b) for a in dsr for b in dsr if a != b and len(a) == len(b) and hfun(a) == hfun(b)]
-            if pairs:
-                f.append('values-collide-under:' + hn)
-                if any(rows.index(a) < rows.index(b) and a in rows[rows.index(b):] for a, b in pairs):
+        bylen = {}
+        for r in dict.fromkeys(rows):
+            bylen.setdefault(len(r), []).append(r)
+        cand = [v for L_, v in bylen.items() if L_ and len(v) >= 2]
+        if cand:
+            first = {}
+            for i_, r in enumerate(rows):
+                first.setdefault(r, i_)
+                last_ = i_
+            lastpos = {r: i_ for i_, r in enumerate(rows)}
+            for hn, hfun in CORE_HASHES:
+                hit = rep = False
+                for v in cand:
+                    hv = {}
+                    for r in v:
+                        hv.setdefault(hfun(r), []).append(r)
+                    for grp in hv.values():
+                        if len(grp) >= 2:
+                            hit = True
+                            if any(first[a] < first[b] < lastpos[a] for a in grp for b in grp if a != b):
+                                rep = True
+                if hit:
+                    f.append('values-collide-under:' + hn)
+                if rep:
                     f.append('collision-then-repeat-of-first:' + hn)
     if case.get('hfam'):
         f.append('hash-family:' + case['hfam'].split('+')[0].split(':')[0].rstrip('0123456789'))
@@ -1339,7 +1368,8 @@ def _gen_hash(tier, rng):
         for kk in range(0, len(tp) + 1):
             for sub in itertools.combinations(range(len(tp)), kk):
                 subs.append([tp[j] for j in sub])
-        icols = list(_seqs(GC, 2)) + [[x, y, x], [y, x, y]] + ([[x, y, x, o2], [o2, y, x]] if big else []) + ([[x, y, z, x]] if z else [])
+        icols = (list(_seqs(GC, 2)) + [[x, y, x], [y, x, y], [x, y, x, o2], [o2, y, x]] if big else [[x], [y], [x, y], [y, x], [x, y, x]]) \
+            + ([[x, y, z, x]] if z else [])
         if not short:
             icols = icols[:6]
         for col in icols:
